@@ -86,12 +86,13 @@ fn code_bodies(payload: &[u8]) -> Vec<(usize, usize, usize)> {
     out
 }
 
-pub const NUM_MUTATORS: u64 = 16;
+pub const NUM_MUTATORS: u64 = 19;
 
 pub fn mutator_name(k: u64) -> &'static str {
     [
         "truncate-at-section", "truncate-random", "delete-section", "duplicate-section", "swap-sections", "section-size", "vector-count", "byte-flips",
         "code-byte", "insert-after-function-end", "type-byte", "unknown-section", "header", "splice-payload", "append-garbage", "insert-in-body",
+        "non-minimal-leb-in-body", "memarg-explicit-memory-index", "memarg-long-offset-leb",
     ][(k % NUM_MUTATORS) as usize]
 }
 
@@ -145,7 +146,7 @@ pub fn mutate(b: &[u8], k: u64, rng: &mut Rng) -> Vec<u8> {
             }
             let s = rng.pick(&secs).clone();
             let size = (s.end - s.payload) as u32;
-            let newsize = *rng.pick(&[size.wrapping_sub(1), size + 1, 0, 0xffff_ffff, size + 1000]);
+            let newsize = *rng.pick(&[size.wrapping_sub(1), size.wrapping_add(1), 0, 0xffff_ffff, size.wrapping_add(1000)]);
             let mut out = b[..s.start + 1].to_vec();
             leb_u32(&mut out, newsize);
             out.extend_from_slice(&b[s.payload..]);
@@ -161,7 +162,7 @@ pub fn mutate(b: &[u8], k: u64, rng: &mut Rng) -> Vec<u8> {
             let i = *rng.pick(&cand);
             if let Some((n, q)) = read_leb(&v[i].1, 0) {
                 let n = n as u32;
-                let nn = *rng.pick(&[0u32, 1, n.wrapping_sub(1), n + 1, 0xffff_ffff, 100_000]);
+                let nn = *rng.pick(&[0u32, 1, n.wrapping_sub(1), n.wrapping_add(1), 0xffff_ffff, 100_000]);
                 let mut p = Vec::new();
                 leb_u32(&mut p, nn);
                 p.extend_from_slice(&v[i].1[q..]);
@@ -251,6 +252,51 @@ pub fn mutate(b: &[u8], k: u64, rng: &mut Rng) -> Vec<u8> {
                 let i = rng.usize(v.len());
                 let n = v[i].1.len();
                 v[i].1 = (0..n).map(|_| rng.next() as u8).collect();
+            }
+            rebuild(b, &v)
+        }
+        16 | 17 | 18 => {
+            // encodings that are only legal under some proposals, applied to otherwise valid bodies (sizes fixed up):
+            //  16: a one-byte LEB becomes a padded two-byte LEB (e.g. the memory index of memory.size)
+            //  17: a load/store memarg gets the "explicit memory index" flag (bit 6) and index 0 (multi-memory)
+            //  18: a memarg offset LEB is padded beyond 5 bytes (only readable as a 64-bit offset: memory64)
+            let mut v = split(b);
+            if let Some(ci) = v.iter().position(|s| s.0 == 10) {
+                let payload = v[ci].1.clone();
+                let bodies = code_bodies(&payload);
+                if !bodies.is_empty() {
+                    let (lp, bs, be) = *rng.pick(&bodies);
+                    let mut body = payload[bs..be].to_vec();
+                    let kind = k % NUM_MUTATORS;
+                    let cands: Vec<usize> = (1..body.len().saturating_sub(1))
+                        .filter(|i| match kind {
+                            16 => body[*i] < 0x80 && (body[*i - 1] == 0x3f || body[*i - 1] == 0x40 || body[*i - 1] < 0x80),
+                            _ => (0x28..=0x3e).contains(&body[*i - 1]) && body[*i] < 0x08 && body.get(*i + 1).map(|x| *x < 0x80).unwrap_or(false),
+                        })
+                        .collect();
+                    if !cands.is_empty() {
+                        let i = *rng.pick(&cands);
+                        match kind {
+                            16 => {
+                                let x = body[i];
+                                body.splice(i..i + 1, [x | 0x80, 0x00]);
+                            }
+                            17 => {
+                                body[i] |= 0x40;
+                                body.insert(i + 1, 0x00);
+                            }
+                            _ => {
+                                let o = body[i + 1];
+                                body.splice(i + 1..i + 2, [o | 0x80, 0x80, 0x80, 0x80, 0x80, 0x00]);
+                            }
+                        }
+                        let mut np = payload[..lp].to_vec();
+                        leb_u32(&mut np, body.len() as u32);
+                        np.extend_from_slice(&body);
+                        np.extend_from_slice(&payload[be..]);
+                        v[ci].1 = np;
+                    }
+                }
             }
             rebuild(b, &v)
         }
